@@ -146,6 +146,11 @@ pub fn permute_lists(sc: &Scenario, rng: &mut Rng) -> Scenario {
             rng.shuffle(reads);
             rng.shuffle(writes);
         }
+        // who depends on whom is part of the registration sequence, the order in which the
+        // names are listed (repeats included) is not
+        if let Reg::Sys { deps, .. } | Reg::Batch { deps, .. } = r {
+            rng.shuffle(deps);
+        }
     });
     s
 }
